@@ -7,6 +7,8 @@ import (
 	"sort"
 	"strings"
 
+	"github.com/cespare/xxhash/v2"
+
 	"github.com/prometheus/prometheus/model/labels"
 	"github.com/prometheus/prometheus/storage"
 
@@ -20,7 +22,7 @@ var (
 	c16Values = []string{"", "m", "a", "b", "y", "0", "1", "2", "3", "prod", "dev", "eu-1", "eu-2", "us", "zz"}
 	// runs with many series: the values at and next to the postings offset table's sampling points
 	c16ValuesMany = append(append([]string{}, c16Values...), "v032", "v064", "v031", "v000", "v033")
-	c16Regex  = []string{"", ".*", ".+", "a|b", "a|", "|b", "(a|b)", "[0-3]", "1|2|7", ".*1", "eu-.*", "eu-.+", "eu-[12]", "(?i:PROD)", "p.*|d.*", "m", "y?", ".", "..+", "prod|dev|", "[^a]*", "v0.*", "v03.|v06.", "v0[0-9]+"}
+	c16Regex      = []string{"", ".*", ".+", "a|b", "a|", "|b", "(a|b)", "[0-3]", "1|2|7", ".*1", "eu-.*", "eu-.+", "eu-[12]", "(?i:PROD)", "p.*|d.*", "m", "y?", ".", "..+", "prod|dev|", "[^a]*", "v0.*", "v03.|v06.", "v0[0-9]+"}
 )
 
 // genMatchers draws a matcher list (1-4 matchers, possibly several on one name).
@@ -320,6 +322,24 @@ func (e *exec) labelQueryCheck(where string) {
 
 // ---- C18: query sharding ----
 
+func referenceStableHash(l labels.Labels) uint64 {
+	var b []byte
+	l.Range(func(x labels.Label) {
+		b = append(b, x.Name...)
+		b = append(b, 0xff)
+		b = append(b, x.Value...)
+		b = append(b, 0xff)
+	})
+	return xxhash.Sum64(b)
+}
+
+func shortKey(k string) string {
+	if len(k) > 160 {
+		return k[:160] + "..."
+	}
+	return k
+}
+
 // shardCheck is the C18 oracle: for a drawn shard count the shards partition the unsharded result; a series' shard
 // is labels.StableHash(lset) % n wherever the series lives (head, blocks) and stays the same for the whole run.
 func (e *exec) shardCheck(where string) {
@@ -371,6 +391,13 @@ func (e *exec) shardCheck(where string) {
 			if want := labels.StableHash(l) % n; want != idx {
 				q.Close()
 				e.fail("shard-partition", "shard-not-stable-hash", "%s: series %s returned by shard %d, StableHash %% n = %d", desc, key, idx, want)
+				return
+			}
+			// the hash every label-set build variant is documented to compute: xxhash64 over name 0xff value 0xff ... in
+			// label order, computed here without the labels package
+			if want := referenceStableHash(l) % n; want != idx {
+				q.Close()
+				e.fail("shard-partition", "shard-differs-from-the-documented-hash", "%s: series %s returned by shard %d, xxhash64(name 0xff value 0xff ...) %% n = %d", desc, shortKey(key), idx, want)
 				return
 			}
 			// (where two writers stored different values at one timestamp, either may be returned by either query)
